@@ -9,9 +9,10 @@ variable {α : Type}
 
 /-! ### the prologue leaves the banks alone -/
 
-def Bk (s s' : St α) : Prop := s'.bankNt = s.bankNt ∧ s'.bankDer = s.bankDer
+def Bk (s s' : St α) : Prop := s'.bankNt = s.bankNt ∧ s'.bankDer = s.bankDer ∧ s'.deleted = s.deleted
 
-theorem Bk.trans {s1 s2 s3 : St α} (h1 : Bk s1 s2) (h2 : Bk s2 s3) : Bk s1 s3 := ⟨h2.1.trans h1.1, h2.2.trans h1.2⟩
+theorem Bk.trans {s1 s2 s3 : St α} (h1 : Bk s1 s2) (h2 : Bk s2 s3) : Bk s1 s3 :=
+  ⟨h2.1.trans h1.1, h2.2.1.trans h1.2.1, h2.2.2.trans h1.2.2⟩
 
 structure BkOK (E : Env α) (f : Nat) : Prop where
   nt : ∀ s S s', initNT E f s S = some s' → Bk s s'
@@ -35,7 +36,7 @@ theorem bk_all (E : Env α) : ∀ f, BkOK E f := by
       split at h
       · simp at h
       · split at h
-        · simp only [Option.some.injEq] at h; subst h; exact ⟨rfl, rfl⟩
+        · simp only [Option.some.injEq] at h; subst h; exact ⟨rfl, rfl, rfl⟩
         · split at h
           · simp at h
           · split at h
@@ -47,7 +48,7 @@ theorem bk_all (E : Env α) : ∀ f, BkOK E f := by
               · simp at h
     · intro s S rs s' h
       cases rs with
-      | nil => simp only [initRules, Option.some.injEq] at h; subst h; exact ⟨rfl, rfl⟩
+      | nil => simp only [initRules, Option.some.injEq] at h; subst h; exact ⟨rfl, rfl, rfl⟩
       | cons r rest =>
         obtain ⟨P, args, w⟩ := r
         rw [initRules] at h
@@ -56,7 +57,7 @@ theorem bk_all (E : Env α) : ∀ f, BkOK E f := by
         · rename_i s1 base hr
           have hs1 : Bk s s1 := by
             split at hr
-            · simp only [Option.some.injEq, Prod.mk.injEq] at hr; rw [← hr.1]; exact ⟨rfl, rfl⟩
+            · simp only [Option.some.injEq, Prod.mk.injEq] at hr; rw [← hr.1]; exact ⟨rfl, rfl, rfl⟩
             · split at hr
               · simp at hr
               · rename_i s1' hd
@@ -65,14 +66,14 @@ theorem bk_all (E : Env α) : ∀ f, BkOK E f := by
                 · simp at hr
           split at h
           · simp at h
-          · obtain ⟨a, b⟩ := ih.rules _ _ _ _ h
-            exact ⟨a.trans hs1.1, b.trans hs1.2⟩
+          · obtain ⟨a, b, c⟩ := ih.rules _ _ _ _ h
+            exact hs1.trans ⟨a, b, c⟩
     · intro s args s' h
       rw [initDer] at h
       split at h
       · simp at h
       · split at h
-        · simp only [Option.some.injEq] at h; subst h; exact ⟨rfl, rfl⟩
+        · simp only [Option.some.injEq] at h; subst h; exact ⟨rfl, rfl, rfl⟩
         · split at h
           · simp at h
           · rename_i s2 cost ha
@@ -88,7 +89,7 @@ theorem bk_all (E : Env α) : ∀ f, BkOK E f := by
                   · simp at h
     · intro s as c s' c' h
       cases as with
-      | nil => simp only [initArgs, Option.some.injEq, Prod.mk.injEq] at h; rw [← h.1]; exact ⟨rfl, rfl⟩
+      | nil => simp only [initArgs, Option.some.injEq, Prod.mk.injEq] at h; rw [← h.1]; exact ⟨rfl, rfl, rfl⟩
       | cons Si rest =>
         rw [initArgs] at h
         split at h
@@ -101,7 +102,7 @@ theorem bk_all (E : Env α) : ∀ f, BkOK E f := by
 theorem reevalDer_bk (A : Arith α) (b : Bool) (s s' : St α) (args : List NT) (h1 : reevalDer A b s args = some s') : Bk s s' := by
   unfold reevalDer at h1
   split at h1
-  · simp only [Option.some.injEq] at h1; subst h1; exact ⟨rfl, rfl⟩
+  · simp only [Option.some.injEq] at h1; subst h1; exact ⟨rfl, rfl, rfl⟩
   · split at h1
     · simp at h1
     · split at h1
@@ -114,12 +115,12 @@ theorem reevalDer_bk (A : Arith α) (b : Bool) (s s' : St α) (args : List NT) (
           · split at h1
             · split at h1
               · simp at h1
-              · simp only [Option.some.injEq] at h1; subst h1; exact ⟨rfl, rfl⟩
+              · simp only [Option.some.injEq] at h1; subst h1; exact ⟨rfl, rfl, rfl⟩
             · simp at h1
 
 theorem reevalDers_bk (A : Arith α) (b : Bool) : ∀ (rs : List (Sym × (List NT × Int))) (s s' : St α),
     reevalDers A b rs s = some s' → Bk s s'
-  | [], s, s', h => by simp only [reevalDers, Option.some.injEq] at h; subst h; exact ⟨rfl, rfl⟩
+  | [], s, s', h => by simp only [reevalDers, Option.some.injEq] at h; subst h; exact ⟨rfl, rfl, rfl⟩
   | (_, (args, _)) :: rest, s, s', h => by
     rw [reevalDers] at h
     split at h
@@ -130,7 +131,7 @@ theorem reevalDers_bk (A : Arith α) (b : Bool) : ∀ (rs : List (Sym × (List N
 theorem reevalPass_bk {E : Env α} : ∀ (rs : List (NT × AList Sym (List NT × Int))) (s : St α) (ch : Bool) (s' : St α) (ch' : Bool),
     reevalPass E rs s ch = some (s', ch') → Bk s s'
   | [], s, ch, s', ch', h => by
-    simp only [reevalPass, Option.some.injEq, Prod.mk.injEq] at h; rw [← h.1]; exact ⟨rfl, rfl⟩
+    simp only [reevalPass, Option.some.injEq, Prod.mk.injEq] at h; rw [← h.1]; exact ⟨rfl, rfl, rfl⟩
   | (S, rs) :: rest, s, ch, s', ch', h => by
     rw [reevalPass] at h
     split at h
@@ -168,7 +169,7 @@ theorem reevaluate_bk {E : Env α} : ∀ (f : Nat) (s s' : St α), reevaluate E 
 
 theorem rebuildQueues_bk (A : Arith α) (b : Bool) (values : AList NT Int) : ∀ (keys : List (List NT)) (s s' : St α),
     rebuildQueues A b values keys s = some s' → Bk s s'
-  | [], s, s', h => by simp only [rebuildQueues, Option.some.injEq] at h; subst h; exact ⟨rfl, rfl⟩
+  | [], s, s', h => by simp only [rebuildQueues, Option.some.injEq] at h; subst h; exact ⟨rfl, rfl, rfl⟩
   | arg :: rest, s, s', h => by
     rw [rebuildQueues] at h
     split at h
@@ -207,7 +208,7 @@ def BanksEmpty (s : St α) : Prop :=
   (∀ S b, AList.lookup S s.bankNt = some b → b = []) ∧ (∀ a b, AList.lookup a s.bankDer = some b → b = [])
 
 theorem banksEmpty_of_bk {s s' : St α} (h : Bk s s') (he : BanksEmpty s) : BanksEmpty s' := by
-  unfold BanksEmpty; rw [h.1, h.2]; exact he
+  unfold BanksEmpty; rw [h.1, h.2.1]; exact he
 
 theorem not_inBankAt_of_empty {s : St α} (h : BanksEmpty s) (S : NT) (c : Nat) (q : Prog) : ¬ InBankAt s S c q := by
   rintro ⟨b, l, hb, hl, _⟩
@@ -218,7 +219,7 @@ theorem not_possAt_of_empty {s : St α} (h : BanksEmpty s) (a : List NT) (c : Na
   rw [h.2 a b hb] at hl; simp at hl
 
 theorem ninv_of_empty {E : Env α} {s : St α} (h : BanksEmpty s) : NInv E s noL := by
-  refine ⟨⟨?_, ?_⟩, ?_, ?_⟩
+  refine ⟨⟨?_, ?_⟩, ?_, ?_, ?_, ?_⟩
   · intro S b ci l hb hl
     rw [h.1 S b hb] at hl; simp at hl
   · intro S ci cj p h1 _
@@ -228,6 +229,10 @@ theorem ninv_of_empty {E : Env α} {s : St α} (h : BanksEmpty s) : NInv E s noL
     exact absurd hc (not_inBankAt_of_empty h S c _)
   · intro S P c0 hm
     simp [noL] at hm
+  · intro S c q hq
+    exact absurd hq (not_inBankAt_of_empty h S c q)
+  · intro p _ S c hq
+    exact absurd hq (not_inBankAt_of_empty h S c p)
 
 /-- the Boolean check of the state the prologue produced: every derivation queue holds nothing or the single
     index tuple `(0,…,0)` -/
@@ -307,7 +312,7 @@ theorem nextLoop_gs (E : Env α) (fuel : Nat) : ∀ (k : Nat) (s : St α) (n : N
       subst hs0
       have hH0 : HInv { s with failedByEmpties := false } noLimbo := hinv_of_eq rfl hH
       have hT0 : TInv2 { s with failedByEmpties := false } noT := tinv2_of_eq rfl rfl hT
-      have hN0 : NInv E { s with failedByEmpties := false } noL := ninv_of_eq (s := s) rfl rfl rfl hN
+      have hN0 : NInv E { s with failedByEmpties := false } noL := ninv_of_eq (s := s) rfl rfl rfl rfl hN
       have m0 : BMono s { s with failedByEmpties := false } := BMono.of_eq rfl
       split at h
       · simp only [Option.some.injEq, Prod.mk.injEq] at h
@@ -335,7 +340,7 @@ theorem nextLoop_gs (E : Env α) (fuel : Nat) : ∀ (k : Nat) (s : St α) (n : N
             · simp only [Option.some.injEq, Prod.mk.injEq] at hstart
               obtain ⟨h1, h2⟩ := hstart
               subst h1; subst h2
-              exact ⟨hinv_of_eq rfl hH, tinv2_of_eq rfl rfl hT, ninv_of_eq (s := s) rfl rfl rfl hN, BMono.of_eq rfl,
+              exact ⟨hinv_of_eq rfl hH, tinv2_of_eq rfl rfl hT, ninv_of_eq (s := s) rfl rfl rfl rfl hN, BMono.of_eq rfl,
                 frok_none rfl, rfl⟩
       obtain ⟨hH0, hT0, hN0, m0, hF0, hS0⟩ := key
       split at h
